@@ -7,10 +7,6 @@ package blockservice
 // "the validator accepts c under allowlist al" — the right-hand side of ValidateCid's contract
 //@ macro validCid(al, c) = alAllowed(al, cidPrefix(c).MhType) && alMin(al, cidPrefix(c).MhType) <= cidPrefix(c).MhLength && cidPrefix(c).MhLength <= alMax(al, cidPrefix(c).MhType)
 
-//@ spec blockCid(b blocks.Block) cid.Cid
-//@ func iface github.com/ipfs/go-block-format.Block.Cid
-//@   ensures result == blockCid(self)
-
 // the allowlist a block service enforces (a stable attribute of the service)
 //@ spec svcAllowlist(bs BlockService) verifcid.Allowlist
 //@ func grabAllowlistFromBlockservice
@@ -21,21 +17,10 @@ package blockservice
 //@ func iface BlockService.Exchange
 //@   pure
 
-// ghost: blocks known to be in the local blockstore
-//@ ghost stored(b blocks.Block) bool
+// (blockstore interface contracts, blockCid and the ghost `stored` are stated in blockstore/zz_verif_contracts.go)
 //@ spec isNotFoundErr(e error) bool
 //@ func ext github.com/ipfs/go-ipld-format.IsNotFound
 //@   ensures result == isNotFoundErr(err)
-
-// blockstore contract as seen by the block service (proved for the datastore-backed store under C01)
-//@ func iface github.com/ipfs/boxo/blockstore.Blockstore.Get
-//@   ensures[hit] err == nil ==> blockCid(result0) == arg2 && stored(result0)
-//@ func iface github.com/ipfs/boxo/blockstore.Blockstore.Has
-//@ func iface github.com/ipfs/boxo/blockstore.Blockstore.Put
-//@   modifies stored(arg2)
-//@   ensures err == nil ==> stored(arg2)
-//@ func iface github.com/ipfs/boxo/blockstore.Blockstore.PutMany
-//@ func iface github.com/ipfs/boxo/blockstore.Blockstore.DeleteBlock
 // the exchange is NOT trusted to return the block that was asked for (property C05 quantifies over malicious exchanges)
 //@ func iface github.com/ipfs/boxo/exchange.Fetcher.GetBlock
 //@ func iface github.com/ipfs/boxo/exchange.Interface.NotifyNewBlocks
